@@ -381,6 +381,8 @@ def reason_lemma(F, R, sf, sres, eres):
             return work_t if res else work_f
         bad = None
         lens = list(range(0, 300)) + [65532, 65533, 65534, 65535]
+        if R.tier == 'thorough':
+            lens = list(range(0, 65536))
         for n in lens:
             need = 3 + n
             if who == 'emitter':
@@ -494,6 +496,9 @@ def varint_len(F, R):
     """var_int_len(_u32): MAP[leading_zeros(v)] must be the MQTT variable byte integer length at every
     boundary; var_int_len_from_size must invert L + vil(L); write_variable_length's ranges must match."""
     bounds = sorted({x for k in (0, 1, 127, 128, 16383, 16384, 2097151, 2097152, 268435455) for x in (k - 2, k - 1, k, k + 1, k + 2, k + 3, k + 4) if 0 <= x <= 268435455})
+    if R.tier == 'thorough':
+        bounds = sorted(set(bounds) | set(range(0, 70000)) | {x for k in (2097152, 268435455) for x in range(k - 3000, k + 3000) if 0 <= x <= 268435455} | {1 << k for k in range(0, 28)} | {(1 << k) - 1 for k in range(1, 29)})
+    R.counts['C09.varint-len:values evaluated'] = len(bounds)
     tabs = {}
     for fn, width in (('v5::codec::encode::var_int_len', 64), ('v5::codec::encode::var_int_len_u32', 32)):
         b = F.bodies.get(fn)
